@@ -52,6 +52,8 @@ def filter_profile(pid, r):
     if pid == "C07":
         opts["rel"] = r.random() < 0.7
         opts["retract_len"] = r.choice([1.0, 0.00001, 0.00002, 12345678.0])
+        opts["tiny"] = r.random() < 0.6
+        opts["g92e"] = True
     if pid == "C14":
         opts["at"] = True
     if r.random() < 0.3:
@@ -249,6 +251,29 @@ def search_c16(pid, r, n, stats):
         if v:
             return {"kind": "arc", "property": pid, "start": list(start), "centre": list(centre),
                     "sweep": sweep, "cw": cw, "violations": v}
+        # "an arc reaching deeper into a region than the sampling resolution is excluded as a whole":
+        # slicer-style arcs (centre level with / straight above the start, or oblique) whose
+        # midpoint lies 2 units inside a region
+        rad2 = r.choice([5.0, 8.0, 12.5])
+        sx, sy = r.choice([30.0, 42.5]), r.choice([30.0, 55.0])
+        oi, oj = r.choice([(rad2, 0.0), (-rad2, 0.0), (0.0, rad2), (0.0, -rad2), (3.0 * rad2 / 5, 4.0 * rad2 / 5)])
+        cw2 = r.random() < 0.5
+        sw2 = r.choice([math.pi / 2, math.pi])
+        b0 = math.atan2(-oj, -oi)
+        b1 = b0 + (-sw2 if cw2 else sw2)
+        bm = b0 + (-sw2 if cw2 else sw2) / 2
+        cx2, cy2 = sx + oi, sy + oj
+        ex2, ey2 = round(cx2 + rad2 * math.cos(b1), 6), round(cy2 + rad2 * math.sin(b1), 6)
+        mx, my = cx2 + rad2 * math.cos(bm), cy2 + rad2 * math.sin(bm)
+        cfg2 = {"regions": [("R", "m", mx - 2.0, my - 2.0, mx + 2.0, my + 2.0)]}
+        arc_cmd = "%s X%s Y%s I%s J%s" % ("G2" if cw2 else "G3", repr(ex2), repr(ey2), repr(oi), repr(oj))
+        evs2 = [("g", "G28"), ("g", "G1 X%r Y%r Z1" % (sx, sy)), ("g", arc_cmd)]
+        res2, _h2 = oracle.run_events(cfg2, evs2)
+        if arc_cmd in oracle.forwarded(evs2[-1], res2[-1]):
+            return {"kind": "filter", "property": pid, "cfg": dict(cfg2, g90e=False, enter=None, exit=None, ext={}),
+                    "events": [list(e) for e in evs2],
+                    "violations": ["step 2: arc %r passes 2 units deep through region %r but was forwarded"
+                                   % (arc_cmd, cfg2["regions"][0])]}
         # radius form, axis-aligned chords only (oblique chords: known finding K-D10)
         d = r.choice([1.0, 4.0, 10.0, 0.5])
         end = (start[0] + d, start[1]) if r.random() < 0.5 else (start[0], start[1] - d)
@@ -309,7 +334,7 @@ def search_c19(pid, r, n, stats):
         words = []
         for _k in range(r.randint(0, 6)):
             w = r.choice("XYZEFSPTIJRxyze") + r.choice(["", " ", "  "]) + \
-                r.choice(["1", "1.5", "-2", ".5", "+1.", "", "10.25", "-0", "007", "1.", "+.5", "-12.", "3."])
+                r.choice(["1", "1.5", "-2", ".5", "+1.", "", "10.25", "-0", "007", "1.", "+.5", "-12.", "3.", "", "0"])
             words.append(w)
         params = r.choice(["", " "]).join(words) if r.random() < 0.3 else " ".join(words)
         stats["evaluations"] += 1
